@@ -144,6 +144,9 @@ class SimListener:
         kernel.listeners.append(self)
 
     def getsockname(self):
+        # what the kernel reports: the resolved address, not the spelling in the configuration
+        if isinstance(self.name, tuple) and self.name[0] == "localhost":
+            return ("127.0.0.1",) + tuple(self.name[1:])
         return self.name
 
     def fileno(self):
@@ -495,7 +498,11 @@ class Kernel:
                 p.term_at = self.now
             if p.hang_kind is not None:
                 return
-            if self.term == "now":
+            if self.term == "swallow1" and self.now - p.born_at < 0.05:
+                # TERM arriving before the worker installed its handlers is lost; the master repeats it
+                p.term_at = None
+                return
+            if self.term in ("now", "swallow1"):
                 self.die(p, 0)
             elif self.term == "late":
                 if p.death_at is None:
